@@ -12,6 +12,20 @@ a second `send` finds `None` (`unexpected send again`, `Err(InnerError)`) and ch
 `Drop` calls the same `try_send(Err(CommandError::Dropped))`, so a sender dropped without a send
 makes the receiver resolve to `Dropped`.
 
+## The socket writer
+`writer` is the `SplitSink` half of a `Framed`: `start_send` only appends the encoded packet to the
+write buffer; bytes reach the socket in `poll_flush`, which returns `Pending` (and registers the
+session's waker for socket writability) when the socket takes only part of the buffer.
+`Framed::poll_ready` itself flushes — and must finish — once the buffer has reached its
+backpressure boundary.  The write stage of every poll is: `poll_ready`, then `start_send` of the
+front of `replies`, repeated; when `replies` is empty it *always* ends with `poll_flush`
+("the former execution of this polling function may have a Pending result for poll_flush").
+`written` are the packets appended to the buffer, `flushed` how many of them are on the socket,
+`armed` whether a flush returned `Pending` in the latest poll (waker registered).  `pollStep` is one
+whole poll (`nreq` requests decoded, the pop loop, the write stage while the socket accepts `cap`
+more packets); granularity is packets, not bytes, and the one-item slot of `SplitSink` is merged
+into the buffer.
+
 Import-free.  Events are the observable steps at the boundary (request decoded, a holder of the
 sender sends / drops it, the front-pop loop, one `start_send` to the client socket, the session
 ending for any reason: peer closed, decode error, write error, idle timeout).
@@ -69,6 +83,12 @@ structure St where
   pairs : ReqId → Pair := fun _ => {}
   /-- `handle_session` has returned (connection closed) -/
   ended : Bool := false
+  /-- how many packets of `written` have left the write buffer for the socket -/
+  flushed : Nat := 0
+  /-- a `poll_flush` returned `Pending` in the latest poll: the waker waits for socket writability -/
+  armed : Bool := false
+  /-- `BACKPRESSURE_BOUNDARY` of the `Framed` write buffer, in packets -/
+  hwm : Nat := 1
 
 def init : St := {}
 
@@ -113,6 +133,56 @@ def step (s : St) : Ev → St
 def run : St → List Ev → St
   | s, [] => s
   | s, e :: es => run (step s e) es
+
+/-! ## one whole poll of `handle_session` (write stage with the socket) -/
+
+/-- `Framed::poll_flush` while the socket accepts `cap` more packets: returns the state and the
+capacity left; `armed` is set when it returns `Pending` (something stays in the buffer) -/
+def flushWith (s : St) (cap : Nat) : St × Nat :=
+  let un := s.written.length - s.flushed
+  let k := min un cap
+  ({ s with flushed := s.flushed + k, armed := s.armed || decide (k < un) }, cap - k)
+
+/-- the write loop: `poll_ready` (flushes first when the buffer is at the boundary; `Pending` ends
+the poll), `start_send` of the front of `replies`; with `replies` empty the final `poll_flush` -/
+def writeLoop : Nat → St → Nat → St × Nat
+  | 0, s, cap => (s, cap)
+  | n + 1, s, cap =>
+    let (s1, cap1) := if s.written.length - s.flushed ≥ s.hwm then flushWith s cap else (s, cap)
+    if s.written.length - s.flushed ≥ s.hwm ∧ s1.flushed < s1.written.length then (s1, cap1)
+    else match s1.replies with
+      | [] => flushWith s1 cap1
+      | r :: rest => writeLoop n { s1 with replies := rest, written := s1.written ++ [r] } cap1
+
+/-- `n` requests decoded by the read loop -/
+def requests : Nat → St → St
+  | 0, s => s
+  | n + 1, s => requests n (step s .request)
+
+/-- one poll: read loop, pop loop, write stage -/
+def pollStep (s : St) (nreq cap : Nat) : St :=
+  if s.ended then s
+  else
+    let s2 := step (requests nreq { s with armed := false }) .pump
+    (writeLoop (s2.replies.length + 1) s2 cap).1
+
+/-- poll-structured events: what happens between two polls, and a poll -/
+inductive PEv where
+  | send (id : ReqId) (r : TaskRes)
+  | dropSender (id : ReqId)
+  | poll (nreq cap : Nat)
+  | stop
+deriving Repr
+
+def pstep (s : St) : PEv → St
+  | .send id r => step s (.send id r)
+  | .dropSender id => step s (.dropSender id)
+  | .poll nreq cap => pollStep s nreq cap
+  | .stop => step s .stop
+
+def prun : St → List PEv → St
+  | s, [] => s
+  | s, e :: es => prun (pstep s e) es
 
 /-- what request `i` is owed according to its oneshot (`none` while nobody has sent) -/
 def owedReply (s : St) (i : ReqId) : Option Reply := ((s.pairs i).value).map replyOf
